@@ -491,6 +491,6 @@ pub fn run(ctx: &Ctx, replay: Option<&serde_json::Value>) {
     }
     ctx.set_rule("program families with model-known cost (chain, exponential join, expensive iteration / non-productive iteration / check / query ticking a virtual clock through an extern function, ticking chain) x limit triples from boundary sets around the model cost (0, 1, cost-1, cost, cost+1, cost+2, cost/2, big, Duration::MAX) x call histories of length 1-4 over run/authorize/query/query_all/query_exactly_one, in an authorizer or in a token; invariants I1-I5 after every call; non-trivial = a limit within a factor 2 of the model cost, or a history of >=2 calls; distinct = hash(case)");
     ctx.assume("time is a per-thread virtual clock (hook H1) advanced only by the extern function: 'promptly' = within 8 ticks / 2x facts + 64");
-    let cases = ctx.tier.pick(12_000, 6_000_000);
+    let cases = ctx.tier.pick(240_000, 6_000_000);
     ctx.run_prop("budgets", cases, || from_tape(64, gen_case), |c, r| test_case(ctx, c, r));
 }
